@@ -149,7 +149,7 @@ def _safe(work, it) -> dict:
 
 
 def write_replay(prop: str, payload: dict) -> str:
-    d = os.path.join(VERIF, "replays", prop)
+    d = os.path.join(os.environ.get("VERIF_REPLAY_DIR") or os.path.join(VERIF, "replays"), prop)
     os.makedirs(d, exist_ok=True)
     blob = json.dumps(payload, sort_keys=True, indent=1, default=str)
     sha = hashlib.sha1(blob.encode()).hexdigest()[:12]
@@ -218,8 +218,11 @@ def finish(report: Report) -> int:
         "wall_s": round(wall, 2),
         "violations": len(viol_paths),
     }
-    os.makedirs(os.path.join(VERIF, "evidence"), exist_ok=True)
-    with open(os.path.join(VERIF, "evidence", f"{report.prop}.json"), "w", encoding="utf-8") as f:
+    # VERIF_EVIDENCE_DIR / VERIF_REPLAY_DIR: only used by tools/sweep.py (runs against scratch worktrees with a seeded
+    # change applied must not overwrite the evidence of the real tree); registered commands never set them
+    evdir = os.environ.get("VERIF_EVIDENCE_DIR") or os.path.join(VERIF, "evidence")
+    os.makedirs(evdir, exist_ok=True)
+    with open(os.path.join(evdir, f"{report.prop}.json"), "w", encoding="utf-8") as f:
         json.dump(ev, f, indent=1, default=str)
         f.write("\n")
     for ln in lines:
